@@ -126,6 +126,11 @@ def conditions(fn, bb, slicer, unwind=False):
                 while val[0] == 'un' and val[1] == 'Not':
                     val = val[2]
                     outcome = not outcome
+                if val[0] == 'select' and all(rv[0] == 'const' and isinstance(rv[1], bool) for _, rv in val[3]):
+                    # `matches!(x, A | B)` / a match producing a bool: the same decision as `match x { A | B => .. }`
+                    names = frozenset(n for ns, rv in val[3] if rv[1] == outcome for n in ns)
+                    out.append(Cond(fn, sb, tb, 'variant', names, val, val[1], val[2]))
+                    continue
                 cd = Cond(fn, sb, tb, 'bool', outcome, val)
                 cd._slicer = slicer
                 out.append(cd)
